@@ -657,6 +657,21 @@ func (lb *LB) inductionLower(phi *ssa.Phi) (lin, bool) {
 			}
 			continue
 		}
+		// phi + k + v1 + v2 ... with k >= 0 and every v >= 0 (`off += 4; off += certLen`)
+		if len(a.coef) > 1 && a.coef[phi] == 1 && a.k >= 0 {
+			mono := true
+			for v, cv := range a.coef {
+				if v == ssa.Value(phi) {
+					continue
+				}
+				if cv <= 0 || !lb.incNonneg(v) {
+					mono = false
+				}
+			}
+			if mono {
+				continue
+			}
+		}
 		// phi + v with v >= 0 (e.g. a byte count returned by Read)
 		if bo, ok := e.(*ssa.BinOp); ok && bo.Op == token.ADD {
 			var inc ssa.Value
